@@ -20,6 +20,15 @@ def _bootstrap():
     if os.environ.get('PYTHONHASHSEED') is None:
         os.environ['PYTHONHASHSEED'] = '0'
         os.execv(sys.executable, [sys.executable] + sys.argv)
+    # Interpreter configuration as a swarm knob of the whole run: odd VERIF_SEED values (or
+    # VERIF_OPTIMIZE=1) execute everything under `python -O` (assert statements compiled out, as in
+    # production deployments); VERIF_OPTIMIZE=0 forces the plain interpreter.  Replay files record it.
+    want_opt = os.environ.get('VERIF_OPTIMIZE')
+    if want_opt is None:
+        want_opt = '1' if int(os.environ.get('VERIF_SEED', '0') or 0) % 2 == 1 else '0'
+        os.environ['VERIF_OPTIMIZE'] = want_opt
+    if (want_opt == '1') != bool(sys.flags.optimize):
+        os.execv(sys.executable, [sys.executable] + (['-O'] if want_opt == '1' else []) + sys.argv)
     repo = os.environ.get('VERIF_REPO', '/repo')
     sys.path[:] = [p for p in sys.path if os.path.abspath(p or '.') != HERE]
     sys.path.insert(0, HERE)
@@ -64,6 +73,9 @@ def cmd_digest(prop, tier, seeds):
 def cmd_replay(path):
     with open(path) as f:
         rp = json.load(f)
+    if bool(rp.get('optimize')) != bool(sys.flags.optimize):
+        os.environ['VERIF_OPTIMIZE'] = '1' if rp.get('optimize') else '0'
+        os.execv(sys.executable, [sys.executable] + (['-O'] if rp.get('optimize') else []) + sys.argv)
     prop = rp['property']
     if prop == 'C18':
         from dst import threadsim
